@@ -176,11 +176,132 @@ fn cmd_filter(args: &[String]) {
     println!("{}", json!({"records":n,"sequences":nseq,"exhaustive_upto":maxlen}));
 }
 
+// ---------------------------------------------------------------------------------------
+// buffers: C14
+// ---------------------------------------------------------------------------------------
+fn build_len_msg(lens: &[usize], id: [u8; 12]) -> stun_rs::StunMessage {
+    use stun_rs::attributes::stun::Software;
+    use stun_rs::attributes::turn::Data;
+    let mut b = stun_rs::StunMessageBuilder::new(stun_rs::methods::BINDING, stun_rs::MessageClass::Request)
+        .with_transaction_id(stun_rs::TransactionId::from(id));
+    for (i, n) in lens.iter().enumerate() {
+        // small lengths alternate between two attribute kinds with an exactly known value size
+        if *n <= 100 && i % 2 == 1 {
+            b = b.with_attribute(Software::new("s".repeat(*n)).unwrap());
+        } else {
+            let v: Vec<u8> = (0..*n).map(|j| (j as u8).wrapping_mul(31).wrapping_add(i as u8)).collect();
+            b = b.with_attribute(Data::new(v));
+        }
+    }
+    b.build()
+}
+
+fn enc_record(lens: &[usize], buf: usize, prefill: u8, big: &Option<Vec<u8>>, id: [u8; 12]) -> Value {
+    let msg = build_len_msg(lens, id);
+    let mut buffer = vec![prefill; buf];
+    let enc = stun_rs::MessageEncoderBuilder::default().build();
+    let r = catch_unwind(AssertUnwindSafe(|| enc.encode(&mut buffer, &msg)));
+    let (res, size, tail_ok, same) = match r {
+        Err(_) => ("panic", -1i64, false, false),
+        Ok(Err(_)) => ("err", -1, true, true),
+        Ok(Ok(sz)) => {
+            let tail_ok = sz <= buf && buffer[sz.min(buf)..].iter().all(|b| *b == prefill);
+            let same = match big {
+                Some(bb) => sz <= buf && sz == bb.len() && buffer[..sz] == bb[..],
+                None => false,
+            };
+            ("ok", sz as i64, tail_ok, same)
+        }
+    };
+    json!({"op":"enc","lens":lens,"buf":buf,"prefill":prefill,"res":res,"size":size,
+           "tail_ok":tail_ok,"same":same,"have_big":big.is_some()})
+}
+
+/// reference encoding into a large, differently pre-filled buffer (None if that fails)
+fn big_encoding(lens: &[usize], id: [u8; 12]) -> Option<Vec<u8>> {
+    let need: usize = 20 + lens.iter().map(|n| 4 + n + obs::pad(*n)).sum::<usize>();
+    let msg = build_len_msg(lens, id);
+    let mut buffer = vec![0x5Au8; need + 64];
+    let enc = stun_rs::MessageEncoderBuilder::default().build();
+    match catch_unwind(AssertUnwindSafe(|| enc.encode(&mut buffer, &msg))) {
+        Ok(Ok(sz)) if sz <= buffer.len() => Some(buffer[..sz].to_vec()),
+        _ => None,
+    }
+}
+
+fn cmd_buffers(args: &[String]) {
+    let out = arg(args, "--out", "out");
+    let seed: u64 = arg(args, "--seed", "1").parse().unwrap();
+    let small: usize = arg(args, "--small", "60").parse().unwrap();
+    let large: usize = arg(args, "--large", "40").parse().unwrap();
+    let cases = arg(args, "--cases", "");
+    std::fs::create_dir_all(&out).unwrap();
+    let mut f = BufWriter::new(File::create(format!("{}/trace.ndjson", out)).unwrap());
+    let mut rng = StdRng::seed_from_u64(seed);
+    let mut n = 0u64;
+    let mut nmsg = 0u64;
+    let id = [7u8; 12];
+    if !cases.is_empty() {
+        let v: Value = serde_json::from_str(&std::fs::read_to_string(&cases).unwrap()).unwrap();
+        for c in v["cases"].as_array().cloned().unwrap_or_default() {
+            let lens: Vec<usize> = c["lens"].as_array().unwrap().iter().map(|x| x.as_u64().unwrap() as usize).collect();
+            let big = big_encoding(&lens, id);
+            let r = enc_record(&lens, c["buf"].as_u64().unwrap() as usize, c["prefill"].as_u64().unwrap_or(0) as u8, &big, id);
+            writeln!(f, "{}", r).unwrap();
+            n += 1;
+        }
+        f.flush().unwrap();
+        println!("{}", json!({"records":n,"messages":n}));
+        return;
+    }
+    // small messages: every buffer length 0..needed+8, three prefills
+    for _ in 0..small {
+        let na = rng.random_range(0..=5usize);
+        let lens: Vec<usize> = (0..na).map(|_| *[0usize, 1, 2, 3, 4, 5, 7, 8, 13, 20, 33, 64, 100][rng.random_range(0..13)..].first().unwrap()).collect();
+        let need: usize = 20 + lens.iter().map(|n| 4 + n + obs::pad(*n)).sum::<usize>();
+        let big = big_encoding(&lens, id);
+        nmsg += 1;
+        for buf in 0..=need + 8 {
+            for prefill in [0x00u8, 0xFF, rng.random()] {
+                writeln!(f, "{}", enc_record(&lens, buf, prefill, &big, id)).unwrap();
+                n += 1;
+            }
+        }
+    }
+    // large messages around the 64 KiB boundary and far above
+    let mut larges: Vec<Vec<usize>> = vec![
+        vec![65512], vec![65508], vec![65516], vec![65528], vec![65529], vec![65531], vec![65532],
+        vec![65535], vec![65536], vec![70000], vec![65000, 500], vec![65000, 504], vec![65000, 508],
+        vec![65000, 512], vec![65000, 520], vec![65000, 528], vec![65000, 532], vec![32000, 32000, 1500],
+        vec![32000, 32000, 1520], vec![32000, 32000, 1524], vec![32000, 33520], vec![65500, 65500],
+        vec![65500, 65500, 65500], vec![100000, 3], vec![4, 65504], vec![4, 65500], vec![4, 65496],
+        vec![0, 65508], vec![65508, 0], vec![65504, 0, 0], vec![65480, 20, 5], vec![65480, 24, 4],
+    ];
+    for _ in 0..large {
+        // random split of a body size drawn around the limit
+        let target = 65400 + rng.random_range(0..300usize);
+        let a = rng.random_range(0..target);
+        larges.push(vec![a, target.saturating_sub(a + 8)]);
+    }
+    for lens in larges {
+        let need: usize = 20 + lens.iter().map(|n| 4 + n + obs::pad(*n)).sum::<usize>();
+        let big = big_encoding(&lens, id);
+        nmsg += 1;
+        for buf in [0usize, 19, 20, 24, need.saturating_sub(1), need, need + 1, need + 8, 65535, 65536, 65556, 70000, 300000] {
+            writeln!(f, "{}", enc_record(&lens, buf, 0xA5, &big, id)).unwrap();
+            n += 1;
+        }
+    }
+    f.flush().unwrap();
+    println!("{}", json!({"records":n,"messages":nmsg}));
+}
+
 fn main() {
     std::panic::set_hook(Box::new(|_| {}));
     let args: Vec<String> = std::env::args().collect();
     match args.get(1).map(|s| s.as_str()).unwrap_or("") {
         "filter" => cmd_filter(&args),
+        "buffers" => cmd_buffers(&args),
         _ => {
             eprintln!("usage: drive-codec filter ...");
             std::process::exit(2);
